@@ -194,6 +194,21 @@ FwNoHandlerItem(mac, id) ==
           !.self_ty = IF mac = "interface" THEN "Iface" ELSE "Ctr",
           !.members = ms,
           !.forwards = <<fw("sudo", 1), fw("query", 2)>>]
+(* forwarded *derive* attributes whose trait names are contained in names of traits the framework derives itself (Eq in PartialEq) *)
+FwDeriveItem(mac, k, id) ==
+    LET ms == IF mac = "interface" THEN SelectSeq(FwMethods, LAMBDA m : m.kind \in {"exec", "query", "sudo"}) ELSE <<New>> \o FwMethods
+        d1 == A("derive", "Eq")
+        d2 == A("derive", "Eq, PartialOrd")
+        k2 == IF k = "exec" THEN "query" ELSE "exec"
+        ty(kk, d) == A("sv::msg_attr", kk \o ", " \o d.p \o "(" \o d.t \o ")")
+        fw(kk, d) == [site |-> "type", kind |-> kk, method |-> "", param |-> "", m |-> d]
+    IN [BaseItem(id, "fw", mac) EXCEPT
+          !.attrs = <<ty(k, d1), ty(k2, d2)>> \o (IF mac = "interface" THEN <<A("sv::custom", "msg = Empty, query = Empty")>> ELSE <<>>),
+          !.self_ty = IF mac = "interface" THEN "Iface" ELSE "Ctr",
+          !.members = [i \in 1..Len(ms) |-> IF mac = "interface" THEN [ms[i] EXCEPT !.body = ""] ELSE ms[i]],
+          !.forwards = <<fw(k, d1), fw(k2, d2)>>]
+FwDerives == {FwDeriveItem("contract", "exec", "FDc1"), FwDeriveItem("contract", "sudo", "FDc2"), FwDeriveItem("contract", "instantiate", "FDc3"),
+              FwDeriveItem("interface", "exec", "FDi1"), FwDeriveItem("interface", "query", "FDi2")}
 FwTripleKinds(mac) == IF mac = "interface" THEN {"exec", "query", "sudo"} ELSE {"instantiate", "exec", "query", "sudo", "migrate"}
 FwTripleSeq(mac) == SetToSeq({<<a, b>> \in FwTripleKinds(mac) \X FwTripleKinds(mac) : a # b})
 FwTriples == UNION {{FwTripleItem(mac, FwTripleSeq(mac)[i][1], FwTripleSeq(mac)[i][2], "FT" \o (IF mac = "contract" THEN "c" ELSE "i") \o ToString(i)) :
@@ -276,11 +291,22 @@ GenIfaceItem(te, tq, ts, tr, late, id) ==
 GenIfaceSeq == SetToSeq(IfaceArgTypes \X IfaceArgTypes \X {TyNone, SelfTy(TP(1))} \X {TyNone, SelfTy(TP(GenParams))} \X {0, 1, 2})
 GenIfaceFamily == {GenIfaceItem(GenIfaceSeq[i][1], GenIfaceSeq[i][2], GenIfaceSeq[i][3], GenIfaceSeq[i][4], GenIfaceSeq[i][5], "GI" \o ToString(i)) :
                       i \in 1..Len(GenIfaceSeq)}
+(* a parameter that occurs again after another one, within one kind: it is still carried once *)
+GenRepeatItem(id, two) ==
+    LET base == GenItem(TyDirect(TP(1)), TyDirect(TP(1)), TyDirect(TP(1)), TyDirect(TP(1)), id)
+        t1 == TyDirect(TP(1))
+        t2 == TyDirect(TP(GenParams))
+    IN [base EXCEPT
+          !.members[2] = [@ EXCEPT !.params = <<GP("a", t1), GP("b", t2), GP("c", t1)>>],
+          !.members[3] = [@ EXCEPT !.params = IF two THEN <<GP("x", t1), GP("y", t2)>> ELSE <<GP("x", t1), GP("y", t2), GP("z", t1)>>],
+          !.members[4] = [@ EXCEPT !.params = <<GP("q", t1), GP("r", t2)>>],
+          !.members = IF two THEN @ \o <<H("bar", "exec", <<GP("k", t1)>>)>> ELSE @]
+GenRepeats == {GenRepeatItem("GX1", FALSE), GenRepeatItem("GX2", TRUE)}
 GenRespSeq == SetToSeq({TyNone, TyDirect(TP(1))} \X {TyNone, TyDirect(TP(1))})
 GenFamily == {GenItem(GenSeq[i][1], GenSeq[i][2], GenSeq[i][3], GenSeq[i][4], "G" \o ToString(i)) : i \in 1..Len(GenSeq)}
         \cup {GenRespItem(GenRespSeq[i][1], GenRespSeq[i][2], "GR" \o ToString(i)) : i \in 1..Len(GenRespSeq)}
         \cup {GenNonPathItem(GenNonPathSeq[i][1], GenNonPathSeq[i][2], "GN" \o ToString(i)) : i \in 1..Len(GenNonPathSeq)}
-        \cup GenIfaceFamily
+        \cup GenIfaceFamily \cup GenRepeats
 
 
 (* ---------------------------------------------------------------- rule *)
@@ -356,6 +382,10 @@ RuleFamily == {
                   [RH2("on_err", "always", <<P("tag", "Binary")>>) EXCEPT !.params = <<P("r", "SubMsgResult"), P("tag", "Binary")>>])),
     Bad(ReplyHost, "X_r_payload_types", "merged_methods_with_different_payload_types",
         AddMember(AddMember(ReplyHost, RH2("on_ok", "success", <<P("tag", "Binary")>>)), RH2("on_err", "error", <<P("e", "String"), P("tag", "u32")>>))),
+    Bad(ReplyHost, "X_r_payload_samelast", "merged_methods_with_different_payload_types",
+        AddMember(AddMember(ReplyHost, RH2("on_ok", "success", <<P("tag", "crate::v1::Note")>>)), RH2("on_err", "error", <<P("e", "String"), P("tag", "crate::v2::Note")>>))),
+    Bad(ReplyHost, "X_r_payload_samelast2", "merged_methods_with_different_payload_types",
+        AddMember(AddMember(ReplyHost, RH2("on_ok", "success", <<P("tag", "Vec<v1::Note>")>>)), RH2("on_err", "error", <<P("e", "String"), P("tag", "Vec<v2::Note>")>>))),
     Bad(ReplyHost, "X_r_payload_arity", "merged_methods_with_different_payload_arity",
         AddMember(AddMember(ReplyHost, RH2("on_ok", "success", <<P("tag", "Binary")>>)),
                   RH2("on_err", "error", <<P("e", "String"), P("tag", "Binary"), P("more", "u32")>>))),
@@ -417,7 +447,7 @@ WithSites(it) == it @@ [sites |-> SitesOf(it.rule)]
 
 (* ---------------------------------------------------------------- model *)
 FwNoHandlers == {FwNoHandlerItem("contract", "FNc"), FwNoHandlerItem("interface", "FNi")}
-Items == TLCEval(SetToSeq({WithSites(it) : it \in EpFamily \cup PtFamily \cup FwFamily \cup FwSame \cup FwTriples \cup FwNoHandlers \cup GenFamily \cup RuleFamily}))
+Items == TLCEval(SetToSeq({WithSites(it) : it \in EpFamily \cup PtFamily \cup FwFamily \cup FwSame \cup FwDerives \cup FwTriples \cup FwNoHandlers \cup GenFamily \cup RuleFamily}))
 
 VARIABLES item,      \* index into Items
           stage,     \* "source" | "expanded"
